@@ -276,6 +276,8 @@ def route_cases(tier, rng):
                 if k == 2 and len(path) > 100 and q and rng.random() > 0.3:
                     continue
                 yield "route-family", ["route", list(tb), [path]]
+                if len(tb) >= 2 and rng.random() < 0.25:
+                    yield "route-history", ["route", list(tb), [path], [rng.choice(FAMILY_PATHS) for _ in range(rng.randrange(1, 4))]]
     yield "route-nopath", ["route", ["", "/"], []]
     yield "route-nopath", ["route", ["/", "{a:any}"], []]
     yield "route-nopath", ["route", ["/{a}"], []]
@@ -496,7 +498,8 @@ def observe(res, seen):
 def impl_route(case):
     from baize.asgi.routing import Router as ARouter
     from baize.wsgi.routing import Router as WRouter
-    _, routes, pa = case
+    _, routes, pa = case[:3]
+    prelude = case[3] if len(case) > 3 else []      # paths the same Router objects serve first (results discarded)
     seen_w, seen_a = [], []
     errs = []
     apps = []
@@ -519,6 +522,11 @@ def impl_route(case):
     scope = {"type": "http", "asgi": {"version": "3.0"}, "http_version": "1.1", "method": "GET", "scheme": "http",
              "path": path, "root_path": "", "query_string": b"", "server": ("testserver", 80),
              "headers": [(b"host", b"testserver")]}
+    for pp in prelude:          # dispatch must not depend on what the router was asked before
+        call_wsgi(apps[0], dict(environ, PATH_INFO=pp))
+        call_asgi(apps[1], dict(scope, path=pp))
+    del seen_w[:]
+    del seen_a[:]
     out = [observe(call_wsgi(apps[0], environ), seen_w), observe(call_asgi(apps[1], scope), seen_a)]
     out.append([canon_match(r, path) for r in apps[0]._route_array])
     return out
@@ -730,7 +738,7 @@ def check_match(parts, route, path, m):
 
 
 def oracle_route(case, obs):
-    _, routes, pa = case
+    _, routes, pa = case[:3]
     path = pa[0] if pa else ""
     parsed = [sane_parse(r) for r in routes]
     if any(p is None for p in parsed):
@@ -833,16 +841,16 @@ def shrink(case):
         for i in range(min(len(t), 60)):
             yield ["conv", case[1], t[:i] + t[i + 1:]]
     elif case[0] == "route":
-        _, routes, pa = case
+        _, routes, pa = case[:3]
         for i in range(len(routes)):
             if len(routes) > 1:
-                yield ["route", routes[:i] + routes[i + 1:], pa]
+                yield ["route", routes[:i] + routes[i + 1:], pa] + case[3:]
         if pa:
             p = pa[0]
             if len(p) > 40:
-                yield ["route", routes, [p[:len(p) // 2]]]
+                yield ["route", routes, [p[:len(p) // 2]]] + case[3:]
             for i in range(min(len(p), 60)):
-                yield ["route", routes, [p[:i] + p[i + 1:]]]
+                yield ["route", routes, [p[:i] + p[i + 1:]]] + case[3:]
 
 
 if __name__ == "__main__":
